@@ -307,7 +307,7 @@ def main():
         # merge passes: later files override earlier ones for the same mutant (file, before, after,
         # nearest line), except that "caught" is never downgraded to "survived" (a rerun with a
         # subset of the checks or a fraction of the runs says nothing about the other checks)
-        out = {}
+        out = {}  # (file, before, after) -> list of records (same text on different lines)
         for f in sys.argv[2:]:
             if f.startswith("--"):
                 break
@@ -315,11 +315,17 @@ def main():
                 r = json.loads(l)
                 if "file" not in r:
                     continue
-                k = (r["file"], r["before"], r["after"], r["line"] // 8)
-                old = out.get(k)
-                if old and old["status"] == "caught" and r["status"] == "survived":
+                lst = out.setdefault((r["file"], r["before"], r["after"]), [])
+                # the same mutant if the line is close (the repository moved on between passes)
+                near = [i for i, o in enumerate(lst) if abs(o["line"] - r["line"]) <= 40]
+                if not near:
+                    lst.append(r)
                     continue
-                out[k] = r
+                i = min(near, key=lambda i: abs(lst[i]["line"] - r["line"]))
+                if lst[i]["status"] == "caught" and r["status"] == "survived":
+                    continue
+                lst[i] = r
+        out = {(k, i): r for k, lst in out.items() for i, r in enumerate(lst)}
         with open(arg("--out"), "w") as o:
             for r in out.values():
                 o.write(json.dumps(r) + "\n")
